@@ -28,6 +28,10 @@ def _shapes_ext(tier):
     out = []
     for ctx, t in CT.ext_types():
         for L in _ext_lengths(tier):
+            if L >= 15 and t in (16, 13172):
+                # ALPN / NPN name lists: 15-16 payload bytes exceed the path
+                # budget (every split into names is a path)
+                continue
             out.append(dict(ctx=ctx, ext=t, L=L))
     return out
 
@@ -151,6 +155,17 @@ def c15_2(I, shape):
         return
     if name in CT.PRE_WRITE:
         assume(CT.PRE_WRITE[name](obj))
+    exts = getattr(obj, "extensions", None)
+    if exts and name in ("ClientHello", "ServerHello"):
+        # RFC 8446 4.2 / RFC 5246 7.4.1.4: one extension per type.  The hello
+        # parsers keep duplicates (the handshake code refuses them through
+        # getExtension()), write() of such a value is not defined: outside
+        # the round-trip claim
+        types = [e.extType for e in exts]
+        if any(bool(a == b) for i, a in enumerate(types)
+               for b in types[i + 1:]):
+            I.cover("duplicate-extension-types")
+            return
     try:
         w = obj.write()
     except Exception as e:
